@@ -277,7 +277,8 @@ func (f *frame) pureCall(in *ssa.Call) {
 	name := originName(callee)
 	if x.isSpecHelper(callee) {
 		switch name {
-		case "old":
+		case "old", "athead":
+			// athead(e) is old(e) with the loop-head state as the second memory view (sites.go)
 			setBoth(dual{args[0][1], args[0][1]})
 			return
 		case "implies":
